@@ -36,6 +36,7 @@ type Action struct {
 	Drop    bool          // never answer
 	ErrCode int16         // answer with this Kafka error code
 	Dup     bool          // write the answer frame twice
+	Late    int           // answer LATE: only once Late later requests have arrived on the same conn (or the conn died, or LateMax passed)
 	Cut     int           // CutNone / CutBefore / CutMid / CutAfter
 }
 
@@ -112,12 +113,15 @@ type bconn struct {
 	wmu      sync.Mutex // serialises answer frames
 	mu       sync.Mutex
 	answered int
+	arrived  int  // requests decoded on this conn
+	dead     bool // the reader saw EOF / an error: the client closed the connection
 	notify   chan struct{}
 }
 
 // Broker is a scripted in-memory Kafka broker.
 type Broker struct {
 	HoldMax time.Duration // bound of Action.Hold waits (default 15ms)
+	LateMax time.Duration // bound of Action.Late waits (default 600ms)
 
 	mu     sync.Mutex
 	conns  []*bconn
@@ -253,6 +257,11 @@ func (b *Broker) serve(c *bconn) {
 	for {
 		ver, corr, _, msg, err := protocol.ReadRequest(r)
 		if err != nil {
+			c.mu.Lock()
+			c.dead = true
+			close(c.notify)
+			c.notify = make(chan struct{})
+			c.mu.Unlock()
 			c.server.Close()
 			return
 		}
@@ -277,13 +286,17 @@ func (b *Broker) serve(c *bconn) {
 
 		c.mu.Lock()
 		target := c.answered + act.Hold
+		c.arrived++
+		lateTarget := c.arrived + act.Late
+		close(c.notify)
+		c.notify = make(chan struct{})
 		c.mu.Unlock()
 
-		go b.answer(c, ver, corr, msg, tag, act, gate, target)
+		go b.answer(c, ver, corr, msg, tag, act, gate, target, lateTarget)
 	}
 }
 
-func (b *Broker) answer(c *bconn, ver int16, corr int32, msg protocol.Message, tag string, act Action, gate chan struct{}, target int) {
+func (b *Broker) answer(c *bconn, ver int16, corr int32, msg protocol.Message, tag string, act Action, gate chan struct{}, target int, lateTarget int) {
 	if gate != nil {
 		select {
 		case <-gate:
@@ -305,6 +318,31 @@ func (b *Broker) answer(c *bconn, ver int16, corr int32, msg protocol.Message, t
 			case <-ch:
 			case <-limit.C:
 				break wait
+			case <-b.done:
+				limit.Stop()
+				return
+			}
+		}
+		limit.Stop()
+	}
+	if act.Late > 0 {
+		max := b.LateMax
+		if max == 0 {
+			max = 600 * time.Millisecond
+		}
+		limit := time.NewTimer(max)
+	late:
+		for {
+			c.mu.Lock()
+			ok, ch := c.arrived >= lateTarget || c.dead, c.notify
+			c.mu.Unlock()
+			if ok {
+				break
+			}
+			select {
+			case <-ch:
+			case <-limit.C:
+				break late
 			case <-b.done:
 				limit.Stop()
 				return
